@@ -1287,3 +1287,22 @@ func (p *GoProg) bindLiteralFields(env *SymEnv, target string, rhs ast.Expr) {
 		}
 	}
 }
+
+// outerLoop returns the first outermost for/range statement of a function body.
+func outerLoop(fd *ast.FuncDecl) ast.Stmt {
+	var found ast.Stmt
+	ast.Inspect(fd.Body, func(n ast.Node) bool {
+		if found != nil {
+			return false
+		}
+		switch n.(type) {
+		case *ast.ForStmt, *ast.RangeStmt:
+			found = n.(ast.Stmt)
+			return false
+		case *ast.FuncLit:
+			return false
+		}
+		return true
+	})
+	return found
+}
